@@ -61,6 +61,26 @@ def gen_case(rng, cls):
         long = gen.rand_seq(rng, 5000, gen.DNA)
         seqs = [long, long[rng.randint(0, 4000):][:1], long[100:130], "A"]
         rng.shuffle(seqs)
+    elif cls == "odd_letters":
+        # letters outside kalign's alphabets must come back unchanged as well (U/J/O in protein, X or other letters in nucleotides, IUPAC codes)
+        kind = rng.choice(["dna", "protein"])
+        if kind == "protein":
+            base, odd = gen.AA, "UJOBZX"
+        else:
+            base, odd = gen.DNA, rng.choice(["X", "XI", "RYSWKMBDHVN", "N"])
+        n = rng.randint(2, 60)
+        seqs = gen.family(rng, n, rng.randint(10, 150), base, psub=0.15, pindel=0.03)
+        seqs = ["".join(rng.choice(odd) if rng.random() < 0.06 else c for c in s) for s in seqs]
+        if kind == "protein":
+            kind, seqs = _ensure_protein(rng, seqs)
+    elif cls == "late_gaps":
+        # more than 50 records; gap characters only in records after the 50th (the input is an incomplete / partial alignment)
+        kind = rng.choice(["dna", "protein"])
+        alpha = gen.DNA if kind == "dna" else gen.AA
+        n = rng.randint(51, 130)
+        seqs = gen.family(rng, n, rng.randint(15, 60), alpha, psub=0.15, pindel=0.05)
+        if kind == "protein":
+            kind, seqs = _ensure_protein(rng, seqs)
     elif cls == "empties":
         kind, seqs = gen.seqset(rng, None, 3, 20, 5, 120)
         k = rng.randint(1, max(1, len(seqs) // 3))
@@ -102,7 +122,19 @@ def check_case(ck, paths_small, paths_big, case, idx):
     nt = rng.choice([1, 2, 3, 8, 16]) if case["cls"] != "huge" else rng.choice([3, 7, 8, 16])
     ctxbase = {"case_class": case["cls"], "kind": kind, "type": word, "gpo": gpo, "gpe": gpe, "tgpe": tgpe}
     f = ck.tmp(".fa")
-    common.write_bytes(f, fmt.write_fasta(recs, width=rng.choice([60, 60, 80, 1000000])))
+    file_recs = recs
+    if case["cls"] == "late_gaps" or (case["cls"] == "bulk" and rng.random() < 0.15):
+        # the residues are what counts: gap characters present in the input are stripped by kalign
+        lo = 50 if case["cls"] == "late_gaps" else 0
+        file_recs = []
+        for k, (n_, s_) in enumerate(recs):
+            if k >= lo and s_ and rng.random() < 0.5:
+                for _ in range(rng.randint(1, 4)):
+                    p_ = rng.randint(0, len(s_))
+                    s_ = s_[:p_] + rng.choice(["-", "--", ".", "-----"]) + s_[p_:]
+            file_recs.append((n_, s_))
+        ck.count("cases_with_gap_characters_in_the_input")
+    common.write_bytes(f, fmt.write_fasta(file_recs, width=rng.choice([60, 60, 80, 1000000])))
     ident = (case["cls"], len(recs), sum(len(s) for _, s in recs), word, nt, hash(tuple(recs)) & 0xffffff)
     had_gap = False
 
@@ -206,10 +238,10 @@ def run(ck, tier):
     paths = build("asan")
     sc = getattr(ck, "scale", 1.0)
     if tier == "quick":
-        plan = [("huge", 2), ("bulk", 60), ("boundary_len", 17), ("boundary_n", 6), ("empties", 8), ("ratio", 2), ("many", 1), ("long", 1)]
+        plan = [("huge", 2), ("odd_letters", 10), ("late_gaps", 6), ("bulk", 60), ("boundary_len", 17), ("boundary_n", 6), ("empties", 8), ("ratio", 2), ("many", 1), ("long", 1)]
         big = build("rel")
     else:
-        plan = [("huge", 12), ("bulk", 1200), ("boundary_len", 170), ("boundary_n", 60), ("empties", 120), ("ratio", 20), ("many", 12), ("long", 12)]
+        plan = [("huge", 12), ("odd_letters", 150), ("late_gaps", 80), ("bulk", 1200), ("boundary_len", 170), ("boundary_n", 60), ("empties", 120), ("ratio", 20), ("many", 12), ("long", 12)]
         big = build("rel")
     cases = []
     for cls, n in plan:
@@ -218,7 +250,7 @@ def run(ck, tier):
     # boundary lengths: make sure every listed boundary appears at least once
     common.pmap(lambda ic: check_case(ck, paths, big, ic[1], ic[0]), list(enumerate(cases)), workers=12)
     ck.rule = ("generated sequence sets (families over random/star/caterpillar/balanced trees, random, low-complexity, duplicates, 1-vs-5000 length ratio, "
-               "equal lengths, empty records mixed in, buffer-boundary lengths and counts) x admissible type x default/user penalties x threads {1,2,3,8,16}; "
+               "equal lengths, empty records mixed in, letters outside the alphabets (U/J/O, X, IUPAC), gap characters already present in the input (also only after the 50th record), buffer-boundary lengths and counts) x admissible type x default/user penalties x threads {1,2,3,8,16}; "
                "each case is observed at kalign() arrays, the msa object, the three written files and the CLI output; every output must reproduce the input "
                "rows exactly (C01 oracle in vf/fmt.py:check_alignment). Non-trivial = an output that contains at least one gap; distinct by input content+settings.")
     ck.assumptions = ["independent FASTA/Clustal/MSF parsers in vf/fmt.py", "names without whitespace for MSF/Clustal outputs (format definition)"]
